@@ -353,6 +353,14 @@ impl VariedResponse {
         };
         &self.responses[position]
     }
+    /// Adds a variant that is wrapped up already, where it belongs.
+    /// A variant for the same header values is replaced.
+    pub(crate) fn push_variant(&mut self, variant: Arc<(CompressedResponse, HeaderCollection)>) {
+        match self.get(&variant.1) {
+            Ok(position) => self.responses[position] = variant,
+            Err(position) => self.responses.insert(position, variant),
+        }
+    }
     fn get(&self, other: &[Header]) -> Result<usize, usize> {
         self.responses.binary_search_by_key(&other, |pair| &pair.1)
     }
